@@ -58,9 +58,12 @@ def run_files(spec, dirpath, book_order, sheet_order=None):
 
 
 def presentations(spec, case):
+    import gc
     out = []
+    heavy = any(f.startswith('form:wholecol') for f in G.features_of(spec))  # 2^20-row operands: free each model before the next
     for how in case.get('dict_orders', ['asis']):
         out.append(('dict:' + how, run_dict(spec, how)))
+        heavy and gc.collect()
     nb = len(spec['books'])
     borders = [list(range(nb))] + ([list(range(nb))[::-1]] if nb > 1 and not case.get('single_file_order') else [])
     if case.get('files', True):
@@ -70,12 +73,15 @@ def presentations(spec, case):
                 if i == 1 or case.get('rev_sheets'):
                     so = {str(b): list(range(len(bk['sheets'])))[::-1] for b, bk in enumerate(spec['books'])}
                 out.append(('file:%s' % ''.join(map(str, bo)), run_files(spec, os.path.join(d, 'o%d' % i), bo, so)))
+                heavy and gc.collect()
             if nb > 1:
                 # only one book is given to loads(); the others are reached by following its references in finish()
                 for first in range(nb):
                     paths = G.write_files(spec, os.path.join(d, 'l%d' % first))
                     m = sut.ExcelModel().loads(paths[first]).finish()
                     out.append(('links:%d' % first, G.flatten(m.calculate())))
+                    del m
+                    heavy and gc.collect()
     return out
 
 
@@ -211,7 +217,7 @@ def parts(tier, seed):
     per = 6 if q else 40
     return [
         ('hyp', 'specs', 320 if q else 6000),
-        ('hyp', 'wholecol', 8 if q else 320, 1),
+        ('hyp', 'wholecol', 8 if q else 320, 1, {'nproc': 8}),
         ('custom', 'hashseeds', 'hashseed_batch',
          [{'shard': i, 'n': per, 'hashseeds': [1, 2] if q else [1, 2, 3, 4]} for i in range(shards)]),
     ]
